@@ -19,7 +19,36 @@ func init() { Registry["C10"] = C10 }
 type c10Prog struct {
 	name  string
 	text  string
-	files map[string]string // further files of the program (imported by the main file), names not renamed
+	files map[string]string // further files of the program (reached from the main file); may contain role holes too
+	// group "base": the eight programs of rounds 1-6, every role of which takes every name harvested from any
+	// program of the group. Every other program takes the names harvested from its OWN two scripts.
+	own   bool
+	stdin string            // standard input of the Bash run (input())
+	box   map[string]string // files that exist in the working directory before the run
+	// lax: the default-named program may end with a non-zero status / write to stderr (panic) and the Batch
+	// run may be outside the cmd.exe model (set /p, external programs); the Bash run must still end normally
+	lax bool
+}
+
+// c10Files renders the further files of a program (nil renaming = default names).
+func c10Files(p c10Prog, ren map[string]string) map[string]string {
+	if len(p.files) == 0 {
+		return nil
+	}
+	out := map[string]string{}
+	for k, v := range p.files {
+		out[k] = c10Render(v, ren)
+	}
+	return out
+}
+
+// c10AllText is the main file followed by the further files in the order of their names (role discovery).
+func c10AllText(p c10Prog) string {
+	t := p.text
+	for _, k := range drive.SortedKeys(p.files) {
+		t += "\n" + p.files[k]
+	}
+	return t
 }
 
 func c10Transpile(src string, files map[string]string, t drive.Target) drive.TResult {
@@ -253,7 +282,9 @@ type c10Obs struct {
 	stderr string
 }
 
-func c10RunBash(src string, files map[string]string) c10Obs {
+// c10RunBash: confirmKill - a run the sandbox killed is repeated once under the doubled limit before it is believed
+// (a listed cell needs no such care: its verdict is the same either way).
+func c10RunBash(p c10Prog, src string, files map[string]string, confirmKill bool) c10Obs {
 	tr := c10Transpile(src, files, drive.Bash)
 	if tr.Panic != "" {
 		return c10Obs{class: "panic", stderr: firstLine(tr.Panic)}
@@ -261,15 +292,42 @@ func c10RunBash(src string, files map[string]string) c10Obs {
 	if !tr.OK() {
 		return c10Obs{class: "rejected", stderr: tr.Err}
 	}
-	// the corpus programs need ~20 ms CPU; 4 s of CPU time is a 200x margin and load-independent
-	got := drive.RunBash(tr.Script, drive.RunOpts{CPUSecs: 4, Backstop: 90 * time.Second, OutputCap: 64 << 10})
+	// the corpus programs need 20-90 ms CPU; 2 s of CPU time is a > 20x margin and load-independent. A renaming that
+	// makes a loop endless (a counter spelled like a read-only shell variable) costs that much each time
+	got := drive.RunBash(tr.Script, drive.RunOpts{CPUSecs: 2, Backstop: 90 * time.Second, OutputCap: 64 << 10, Stdin: p.stdin, Files: p.box})
+	if got.Runaway != "" && confirmKill {
+		got = drive.RunBash(tr.Script, drive.RunOpts{CPUSecs: 4, Backstop: 120 * time.Second, OutputCap: 64 << 10, Stdin: p.stdin, Files: p.box})
+	}
 	if got.Runaway != "" {
 		return c10Obs{class: "runaway", stdout: ""}
 	}
-	return c10Obs{class: "ok", stdout: got.Stdout, exit: got.Exit, stderr: got.Stderr}
+	return c10Obs{class: "ok", stdout: got.Stdout, exit: got.Exit, stderr: c10Stderr(got.Stderr)}
 }
 
-func c10RunBatch(src string, files map[string]string) c10Obs {
+// c10RuntimeNames lists the variables that exist when the script ends (EXIT trap, so a panic is covered as well),
+// without those in skip.
+func c10RuntimeNames(p c10Prog, script string, skip map[string]bool) []string {
+	const marker = "__c10_variable_table__"
+	got := drive.RunBash("trap 'echo; echo "+marker+"; compgen -v' EXIT\n"+script, drive.RunOpts{CPUSecs: 4, OutputCap: 256 << 10, Stdin: p.stdin, Files: p.box})
+	i := strings.LastIndex(got.Stdout, marker+"\n")
+	if got.Runaway != "" || i < 0 {
+		return nil
+	}
+	var out []string
+	for _, n := range strings.Fields(got.Stdout[i+len(marker):]) {
+		if c10Ident.MatchString(n) && !skip[n] {
+			out = append(out, n)
+		}
+	}
+	return out
+}
+
+// bash prefixes its own messages with the path of the script, which differs from run to run
+var c10ScriptPath = regexp.MustCompile(`(?m)^/\S*/script\.sh: `)
+
+func c10Stderr(s string) string { return c10ScriptPath.ReplaceAllString(s, "script.sh: ") }
+
+func c10RunBatch(p c10Prog, src string, files map[string]string) c10Obs {
 	tr := c10Transpile(src, files, drive.Batch)
 	if tr.Panic != "" {
 		return c10Obs{class: "panic", stderr: firstLine(tr.Panic)}
@@ -277,7 +335,11 @@ func c10RunBatch(src string, files map[string]string) c10Obs {
 	if !tr.OK() {
 		return c10Obs{class: "rejected", stderr: tr.Err}
 	}
-	res := cmdmodel.Run(tr.Script, cmdmodel.Options{MaxSteps: 600000, Files: map[string]string{}})
+	fs := map[string]string{}
+	for k, v := range p.box {
+		fs[k] = v
+	}
+	res := cmdmodel.Run(tr.Script, cmdmodel.Options{MaxSteps: 600000, Files: fs, External: c10External})
 	if res.Unmodelled == "step budget" {
 		return c10Obs{class: "runaway"}
 	}
@@ -287,109 +349,265 @@ func c10RunBatch(src string, files map[string]string) c10Obs {
 	return c10Obs{class: "ok", stdout: strings.ReplaceAll(res.Stdout, "\r\n", "\n"), exit: res.Exit, stderr: res.Error}
 }
 
+var c10SourceIdent = regexp.MustCompile(`[A-Za-z_][A-Za-z0-9_]*`)
+
+func c10Values(m map[string]string) []string {
+	var out []string
+	for _, k := range drive.SortedKeys(m) {
+		out = append(out, m[k])
+	}
+	return out
+}
+
+// c10Cand is one spelling offered to a role; only = "" (both targets), "bash" or "batch"
+type c10Cand struct {
+	name string
+	only string
+}
+
+// c10Universe: the harvested names, the names shaped like them, the shell/cmd vocabulary and the complete lists
+// of the variables the two shells own.
+func c10Universe(harvested map[string]bool, bashVars []string) []c10Cand {
+	set := map[string]string{}
+	var hs []string
+	for n := range harvested {
+		hs = append(hs, n)
+	}
+	sort.Strings(hs)
+	for _, n := range hs {
+		set[n] = ""
+		// names SHAPED like the reserved ones: every family (digits stripped) extended by letters / digits+letters
+		fam := c10Digits.ReplaceAllString(n, "")
+		if strings.HasPrefix(fam, "_") || strings.Contains(fam, "_") {
+			set[fam+"its"] = ""
+			set[fam+"7x"] = ""
+		}
+	}
+	for _, v := range c10ShellVocabulary {
+		set[v] = ""
+	}
+	for _, v := range bashVars {
+		if _, ok := set[v]; !ok {
+			set[v] = "bash" // a name only Bash knows; the ones cmd.exe knows too follow
+		}
+	}
+	for _, v := range c10CmdVariables {
+		if o, ok := set[v]; !ok {
+			set[v] = "batch"
+		} else if o == "bash" {
+			set[v] = ""
+		}
+	}
+	var out []c10Cand
+	for _, n := range drive.SortedKeys(set) {
+		out = append(out, c10Cand{n, set[n]})
+	}
+	return out
+}
+
+// roles whose variable lives at the top level of a file
+var c10TopLevelVariable = map[string]bool{"global": true, "loop": true, "range": true, "impglobal": true, "pubglobal": true}
+
+// c10Legal: which spellings the LANGUAGE allows a role to take without giving the program another meaning. A
+// top-level name of an imported file is exported iff its first letter is upper case: a private one stays private, a
+// public one stays public. Everywhere else the language attaches no meaning to the spelling.
+func c10Legal(kind, name string) bool {
+	upper := name[0] >= 'A' && name[0] <= 'Z'
+	switch kind {
+	case "impglobal", "impfunc":
+		return !upper
+	case "pubglobal", "pubfunc":
+		return upper
+	}
+	return true
+}
+
+// c10Spellings: the role's own default name in the shapes no generator had varied: underscore-led, doubly
+// underscore-led, underscore-tailed, an underscore inside, first letter in the other case, all upper case.
+func c10Spellings(d string) []string {
+	first := strings.ToUpper(d[:1])
+	if first == d[:1] {
+		first = strings.ToLower(d[:1])
+	}
+	return []string{"_" + d, "__" + d, d + "_", d[:1] + "_" + d[1:], first + d[1:], strings.ToUpper(d), "_" + strings.ToUpper(d[:1]) + d[1:]}
+}
+
 func C10() int {
 	r := findings.New("C10")
 	defer drive.Cleanup()
-	deadline := r.Deadline(6*time.Minute, 30*time.Minute)
+	deadline := r.Deadline(10*time.Minute, 40*time.Minute)
+	if missing := c10FacilityGaps(c10Corpus); len(missing) > 0 {
+		fmt.Printf("HARNESS ERROR: the corpus has no program for: %s\n", strings.Join(missing, "; "))
+		return 2
+	}
+	if only := getenv("C10_ONLY"); only != "" { // development aid: one corpus program (the evidence says so)
+		var keep []c10Prog
+		for _, p := range c10Corpus {
+			if p.name == only {
+				keep = append(keep, p)
+			}
+		}
+		c10Corpus = keep
+		r.Assumef("C10_ONLY=%s: only this corpus program was run", only)
+	}
+	bashVars, extra := c10InstalledShellVariables()
+	r.Set("names_bash_shell_variables", len(bashVars))
+	r.Set("names_bash_shell_variables_only_the_installed_shell_knows", extra)
+	r.Set("names_cmd_variables", len(c10CmdVariables))
 	// 1. base runs and harvest of the names the back-ends reserve today
-	reserved := map[string]bool{}
+	reserved := map[string]bool{} // union over the base group
+	own := map[string]map[string]bool{}
 	base := map[string][2]c10Obs{}
+	composed := map[string]bool{}
+	shellOwn := map[string]bool{}
+	for _, n := range c10RuntimeNames(c10Prog{}, "", nil) {
+		shellOwn[n] = true
+	}
 	for _, p := range c10Corpus {
-		src := c10Render(p.text, nil)
+		src, files := c10Render(p.text, nil), c10Files(p, nil)
+		// what the user wrote: every identifier of the source files (roles and the identifiers that are never renamed)
+		// (the base group has no such identifier in its main files; its harvest stays as it was)
 		user := map[string]bool{}
-		for _, rl := range c10Roles(p.text) {
+		for _, rl := range c10Roles(c10AllText(p)) {
 			user[rl[1]] = true
 		}
-		b, w := c10RunBash(src, p.files), c10RunBatch(src, p.files)
-		if b.class != "ok" || b.stderr != "" || b.exit != 0 || w.class != "ok" || w.stderr != "" || b.stdout != w.stdout {
-			fmt.Printf("HARNESS ERROR: corpus program %s does not run cleanly with its default names (bash: %s %q / batch: %s %q)\n", p.name, b.class, b.stderr, w.class, w.stderr)
+		if p.own {
+			for _, t := range append([]string{src}, c10Values(files)...) {
+				for _, id := range c10SourceIdent.FindAllString(t, -1) {
+					user[id] = true
+				}
+			}
+		}
+		b, w := c10RunBash(p, src, files, true), c10RunBatch(p, src, files)
+		bad := b.class != "ok" || (w.class != "ok" && !(p.lax && w.class == "unmodelled")) || (w.class == "ok" && (b.stdout != w.stdout || b.exit != w.exit))
+		if !p.lax && (b.stderr != "" || b.exit != 0 || w.stderr != "") {
+			bad = true
+		}
+		if bad {
+			fmt.Printf("HARNESS ERROR: corpus program %s does not run cleanly with its default names (bash: %s %q exit %d / batch: %s %q exit %d)\n", p.name, b.class, b.stderr, b.exit, w.class, w.stderr, w.exit)
 			return 2
 		}
 		base[p.name] = [2]c10Obs{b, w}
-		tb := c10Transpile(src, p.files, drive.Bash)
-		tw := c10Transpile(src, p.files, drive.Batch)
-		c10Harvest(tb.Script, bashNames, user, reserved)
-		c10Harvest(tw.Script, batchNames, user, reserved)
-	}
-	// names SHAPED like the reserved ones: every family (digits stripped) extended by letters / digits+letters
-	for n := range reserved {
-		fam := c10Digits.ReplaceAllString(n, "")
-		if strings.HasPrefix(fam, "_") || strings.Contains(fam, "_") {
-			reserved[fam+"its"] = true
-			reserved[fam+"7x"] = true
+		tb := c10Transpile(src, files, drive.Bash)
+		tw := c10Transpile(src, files, drive.Batch)
+		into := reserved
+		if p.own {
+			into = map[string]bool{}
+			own[p.name] = into
+		}
+		c10Harvest(tb.Script, bashNames, user, into)
+		c10Harvest(tw.Script, batchNames, user, into)
+		// names the script COMPOSES at run time never stand in its text: every variable that exists when the
+		// default-named Bash script ends and that the shell did not bring along is reserved too
+		for _, n := range c10RuntimeNames(p, tb.Script, shellOwn) {
+			if !user[n] && !into[n] {
+				into[n] = true
+				composed[n] = true
+			}
 		}
 	}
-	harvested := len(reserved)
-	for _, v := range c10ShellVocabulary {
-		reserved[v] = true
-	}
-	var names []string
-	for n := range reserved {
-		names = append(names, n)
-	}
-	sort.Strings(names)
-	r.Set("reserved_names_harvested_from_emitted_scripts", harvested)
+	names := c10Universe(reserved, bashVars)
+	r.Set("reserved_names_harvested_from_emitted_scripts", len(reserved))
 	r.Set("reserved_names_total", len(names))
-	r.Set("reserved_names", names)
+	r.Set("reserved_names_found_only_in_the_variable_table_of_the_finished_bash_run", drive.SortedKeys(composed))
+	var flat []string
+	for _, c := range names {
+		flat = append(flat, c.name)
+	}
+	r.Set("reserved_names", flat)
 	// 2. renamings
 	type variant struct {
 		prog    c10Prog
 		ren     map[string]string
 		desc    string
 		keyBase string
+		only    string
 	}
 	var vs []variant
+	shellVar, oldVocabulary := map[string]bool{}, map[string]bool{}
+	for _, v := range bashVars {
+		shellVar[v] = true
+	}
+	for _, v := range c10CmdVariables {
+		shellVar[v] = true
+	}
+	for _, v := range c10ShellVocabulary {
+		oldVocabulary[v] = true
+	}
+	skippedQuick := 0
+	perProg := map[string]int{}
+	ownNames := map[string]int{}
 	for _, p := range c10Corpus {
-		roles := c10Roles(p.text)
+		roles := c10Roles(c10AllText(p))
 		taken := map[string]bool{}
 		for _, rl := range roles {
 			taken[rl[1]] = true
 		}
+		universe := names
+		if p.own {
+			universe = c10Universe(own[p.name], bashVars)
+			ownNames[p.name] = len(universe)
+		}
 		for _, rl := range roles {
-			cands := append([]string{}, names...)
-			// case twins of the other identifiers of the same program, and of this one
+			cands := append([]c10Cand{}, universe...)
+			// case twins of the other identifiers of the same program
 			for _, other := range roles {
 				if other[1] != rl[1] {
-					cands = append(cands, strings.ToUpper(other[1]), strings.ToUpper(other[1][:1])+other[1][1:])
+					cands = append(cands, c10Cand{strings.ToUpper(other[1]), ""}, c10Cand{strings.ToUpper(other[1][:1]) + other[1][1:], ""})
 				}
 			}
 			// the concatenation of two other identifiers (tables keyed by joined names must not confuse
 			// `get`+`Total` with `getTotal`): a function's name followed by any other identifier
 			for _, a := range roles {
 				for _, b := range roles {
-					if a[0] == "func" && a[1] != rl[1] && b[1] != rl[1] {
-						cands = append(cands, a[1]+b[1])
+					if strings.HasSuffix(a[0], "func") && a[1] != rl[1] && b[1] != rl[1] {
+						cands = append(cands, c10Cand{a[1] + b[1], ""})
 					}
 				}
 			}
-			for _, nn := range cands {
-				if taken[nn] || (rl[0] == "func" && false) {
+			// the role's own name in other shapes
+			for _, sp := range c10Spellings(rl[1]) {
+				cands = append(cands, c10Cand{sp, ""})
+			}
+			offered := map[string]bool{}
+			for _, c := range cands {
+				nn := c.name
+				if taken[nn] || offered[nn] || !c10Legal(rl[0], nn) {
 					continue
 				}
+				// quick tier: what a shell variable's name does to a role of every KIND is decided on the base group
+				// (every role x every shell variable); the added programs exist for facility x name, which needs a
+				// variable of the program's top level - their other roles take the shell variables in thorough
+				if p.own && !r.Thorough() && shellVar[nn] && !oldVocabulary[nn] && !c10TopLevelVariable[rl[0]] {
+					skippedQuick++
+					continue
+				}
+				offered[nn] = true
 				key := fmt.Sprintf("role=%s name=%s", rl[0], c10Digits.ReplaceAllString(nn, "N"))
 				for t := range taken {
 					if t != rl[1] && t != nn && strings.EqualFold(t, nn) {
 						key = fmt.Sprintf("role=%s name=case-twin-of-another-identifier", rl[0])
 					}
 				}
-				vs = append(vs, variant{p, map[string]string{rl[1]: nn}, fmt.Sprintf("%s: %s %s -> %s", p.name, rl[0], rl[1], nn), key})
+				vs = append(vs, variant{p, map[string]string{rl[1]: nn}, fmt.Sprintf("%s: %s %s -> %s", p.name, rl[0], rl[1], nn), key, c.only})
+				perProg[p.name]++
 			}
 		}
 		if r.Thorough() {
 			// pairs: two roles renamed to two reserved names from the most collision-prone families
 			fam := []string{}
-			for _, n := range names {
-				if strings.HasPrefix(n, "_") && len(fam) < 14 {
-					fam = append(fam, n)
+			for _, n := range universe {
+				if strings.HasPrefix(n.name, "_") && len(fam) < 14 {
+					fam = append(fam, n.name)
 				}
 			}
 			for i := 0; i < len(roles); i++ {
 				for j := i + 1; j < len(roles); j++ {
 					for _, a := range fam {
 						for _, b := range fam {
-							if a != b {
+							if a != b && c10Legal(roles[i][0], a) && c10Legal(roles[j][0], b) {
 								vs = append(vs, variant{p, map[string]string{roles[i][1]: a, roles[j][1]: b}, fmt.Sprintf("%s: %s %s -> %s, %s %s -> %s", p.name, roles[i][0], roles[i][1], a, roles[j][0], roles[j][1], b),
-									fmt.Sprintf("pair roles=%s+%s names=%s+%s", roles[i][0], roles[j][0], c10Digits.ReplaceAllString(a, "N"), c10Digits.ReplaceAllString(b, "N"))})
+									fmt.Sprintf("pair roles=%s+%s names=%s+%s", roles[i][0], roles[j][0], c10Digits.ReplaceAllString(a, "N"), c10Digits.ReplaceAllString(b, "N")), ""})
 							}
 						}
 					}
@@ -401,6 +619,7 @@ func C10() int {
 	distinct := findings.NewDistinct()
 	done, capped := 0, false
 	outcome := map[string]int{}
+	wallBash, wallBatch, runaways := map[string]float64{}, map[string]float64{}, map[string]int{}
 	drive.Par(len(vs), func(i int) {
 		if past(deadline) {
 			mu.Lock()
@@ -409,16 +628,36 @@ func C10() int {
 			return
 		}
 		v := vs[i]
-		src := c10Render(v.prog.text, v.ren)
-		distinct.Add(src)
-		obs := [2]c10Obs{c10RunBash(src, v.prog.files), c10RunBatch(src, v.prog.files)}
+		src, files := c10Render(v.prog.text, v.ren), c10Files(v.prog, v.ren)
+		dk := src
+		for _, k := range drive.SortedKeys(files) {
+			dk += "\x00" + files[k]
+		}
+		distinct.Add(dk)
+		var obs [2]c10Obs
+		t0 := time.Now()
+		if v.only != "batch" {
+			obs[0] = c10RunBash(v.prog, src, files, !r.IsKnown(v.keyBase+" target=bash symptom=behaviour-changed"))
+		}
+		t1 := time.Now()
+		if v.only != "bash" {
+			obs[1] = c10RunBatch(v.prog, src, files)
+		}
 		mu.Lock()
 		done++
+		wallBash[v.prog.name] += t1.Sub(t0).Seconds()
+		wallBatch[v.prog.name] += time.Since(t1).Seconds()
 		mu.Unlock()
 		if i%499 == 0 {
 			r.Sample(map[string]string{"kind": "renaming", "case": v.desc, "bash": obs[0].class, "batch": obs[1].class})
 		}
 		for t, tg := range []string{"bash", "batch"} {
+			if v.only != "" && v.only != tg {
+				mu.Lock()
+				outcome[tg+":name-of-the-other-shell-not-run"]++
+				mu.Unlock()
+				continue
+			}
 			o, b := obs[t], base[v.prog.name][t]
 			sym := ""
 			switch {
@@ -427,13 +666,19 @@ func C10() int {
 				outcome[tg+":rejected-with-error"]++
 				mu.Unlock()
 				continue
+			case o.class == "panic":
+				sym = "transpiler-panic"
+			case b.class == "unmodelled":
+				// the default-named program is outside the cmd.exe model (set /p, external programs): nothing to compare
+				mu.Lock()
+				outcome[tg+":default-named-program-unmodelled"]++
+				mu.Unlock()
+				continue
 			case o.class == "unmodelled":
 				mu.Lock()
 				outcome[tg+":unmodelled"]++
 				mu.Unlock()
 				continue
-			case o.class == "panic":
-				sym = "transpiler-panic"
 			case o.class == "runaway":
 				sym = "runaway"
 			case o.stdout != b.stdout:
@@ -451,13 +696,23 @@ func C10() int {
 			}
 			mu.Lock()
 			outcome[tg+":changed"]++
+			if sym == "runaway" {
+				outcome[tg+":changed-of-which-runaway"]++
+				runaways[v.prog.name]++
+			}
 			mu.Unlock()
-			// confirm determinism
+			// confirm determinism (not for a listed cell: the run only adds a word to the description)
 			var again c10Obs
-			if t == 0 {
-				again = c10RunBash(src, v.prog.files)
+			if key := v.keyBase + " target=" + tg + " symptom=behaviour-changed"; r.IsKnown(key) {
+				r.Fail(key, fmt.Sprintf("%s [%s]: %s (%s)", v.desc, tg, sym, diffHint(b.stdout, o.stdout)), nil)
+				continue
+			}
+			if sym == "runaway" {
+				again = o // a killed run was repeated already; its cut-off output means nothing
+			} else if t == 0 {
+				again = c10RunBash(v.prog, src, files, true)
 			} else {
-				again = c10RunBatch(src, v.prog.files)
+				again = c10RunBatch(v.prog, src, files)
 			}
 			if again.class != o.class || (o.class == "ok" && again.stdout != o.stdout) {
 				// e.g. a variable renamed to RANDOM or SECONDS: the behaviour changed AND became
@@ -466,8 +721,18 @@ func C10() int {
 				sym += "+nondeterministic"
 			}
 			r.Fail(v.keyBase+" target="+tg+" symptom=behaviour-changed", fmt.Sprintf("%s [%s]: %s (%s)", v.desc, tg, sym, diffHint(b.stdout, o.stdout)), func() findings.Replay {
-				return findings.Replay{Files: c10WithFiles(v.prog.files, map[string]string{"src/main.tsh": src, "base/main.tsh": c10Render(v.prog.text, nil), "expected.txt": b.stdout + fmt.Sprintf("exit=%d\n", b.exit), "actual.txt": o.stdout + fmt.Sprintf("exit=%d\n", o.exit), "stderr.txt": o.stderr, "detail.txt": v.desc + "\n"}),
-					Script: repoTshReplay("bash")}
+				m := map[string]string{"src/main.tsh": src, "base/main.tsh": c10Render(v.prog.text, nil), "expected.txt": b.stdout + fmt.Sprintf("exit=%d\n", b.exit), "expected_stderr.txt": b.stderr,
+					"actual.txt": o.stdout + fmt.Sprintf("exit=%d\n", o.exit), "stderr.txt": o.stderr, "stdin.txt": v.prog.stdin, "detail.txt": v.desc + "\n"}
+				for k, c := range files {
+					m["src/"+k] = c
+				}
+				for k, c := range c10Files(v.prog, nil) {
+					m["base/"+k] = c
+				}
+				for k, c := range v.prog.box {
+					m["box/"+k] = c
+				}
+				return findings.Replay{Files: m, Script: c10Replay()}
 			})
 		}
 	})
@@ -477,20 +742,41 @@ func C10() int {
 	}
 	sort.Strings(oc)
 	r.Set("outcomes", oc)
+	if getenv("C10_PROFILE") != "" {
+		for _, p := range c10Corpus {
+			fmt.Printf("PROFILE %-30s renamings %5d  bash %7.1f s  batch %7.1f s (wall, summed over workers) runaways %d\n", p.name, perProg[p.name], wallBash[p.name], wallBatch[p.name], runaways[p.name])
+		}
+	}
 	r.Set("corpus_programs", len(c10Corpus))
+	r.Set("renamings_per_program", perProg)
+	r.Set("renamings_left_to_thorough_shell_variable_x_function_level_role_of_an_added_program", skippedQuick)
+	r.Set("names_offered_to_a_program_of_its_own_harvest", ownNames)
+	r.Set("facilities_each_present_at_top_level_and_inside_a_function", c10FacilityNames())
 	r.Set("evaluations", done)
 	r.Set("distinct_nontrivial", distinct.Len())
 	r.Set("exhaustive", !capped)
-	r.Set("rule", "corpus of programs that together use every name-producing mechanism (globals, locals, parameters, functions, loop and range variables, slices incl. growth/copy, string subscripts, multi-return, nested calls, simultaneous assignment) x every single identifier role renamed to every member of the reserved set (harvested on this run from the scripts the current tree emits: every assignment target, function name, label, local and evaluated variable that is not a user identifier; plus shell/cmd vocabulary; plus case twins of the program's other identifiers); thorough adds pairs of roles. Oracle (metamorphic): the renamed program fails to transpile with an error, or its observation (bash: real run; batch: cmd.exe model) equals the default-named program's. Distinct by source text.")
+	if capped {
+		r.Set("cap_hit", "internal deadline")
+	}
+	r.Set("rule", "corpus of programs that together use every name-producing mechanism (globals, locals, parameters, functions, loop and range variables, slices incl. growth/copy, string subscripts, multi-return, nested calls, simultaneous assignment) and - checked by a self-test of the corpus on every run - every builtin (len print input copy read write exists itoa panic; input() gets standard input, the file builtins a working directory) and every statement form of the README (var forms, := and = incl. multi-value, op-assignment, ++/--, if / else if / else, switch with tag / without tag / `switch true`, the four for forms, break, continue, return, call statement, program call plain / piped / captured, slice literal / element write / element read, substring) both at the top level and inside a function; plus multi-file programs whose renamed identifiers live in an IMPORTED file that is reached twice (diamond; one file under two aliases) and whose top-level state changes between the two inclusions (roles: private global, private function, its parameter and local, public global, public function)"+
+		" x every single identifier role renamed to every member of the name universe: names harvested on this run from the scripts the current tree emits (every assignment target, function name, label, local and evaluated variable that is not a user identifier, and every variable in the variable table of the finished default-named Bash run - names composed at run time: for a program of the base group of 8 the union over the group, for every other program its own two scripts) and names shaped like them; shell/cmd vocabulary; the COMPLETE list of Bash's shell variables (bash 5.2 manual, section Shell Variables, plus 5.3's additions and whatever `compgen -v` of the installed shell reports) on both targets; cmd.exe's dynamic and standard environment variables (Batch target only); case twins of the program's other identifiers; joined identifiers; the role's own name underscore-led / doubly underscore-led / underscore-tailed / with an inner underscore / first letter in the other case / upper case. Quick-tier bound (thorough has none): the shell variables added to the lists in round 7 are offered to every role of the base group (every role kind meets every shell variable there) and to the top-level variables of the added programs (facility x shell variable). A private top-level name of an imported file is only offered spellings that do not start with an upper-case letter and a public one only those that do (export is the language's rule); thorough adds pairs of roles. Oracle (metamorphic): the renamed program fails to transpile with an error, or its observation (bash: real run - stdout, status, stderr; batch: cmd.exe model) equals the default-named program's. Distinct by source text.")
 	r.Assumef("the default-named corpus programs are validated by this check only for clean execution and bash/batch agreement; their meaning is covered by C01-C05")
-	r.Assumef("Batch observations come from cmdmodel (case-insensitive variable and label names like cmd.exe); unmodelled runs are counted, not judged")
+	r.Assumef("Batch observations come from cmdmodel (case-insensitive variable and label names like cmd.exe); unmodelled runs are counted, not judged; a program whose default-named Batch script is outside the model (set /p; program calls the model refuses) is judged on the Bash target only, on Batch only a transpiler panic is reported")
 	return finish(r)
 }
 
-func c10WithFiles(files map[string]string, m map[string]string) map[string]string {
-	for k, v := range files {
-		m["src/"+k] = v
-		m["base/"+k] = v
-	}
-	return m
+// c10Replay re-runs the case with the repository's own command: transpile src/, run in a copy of box/ with
+// stdin.txt, compare stdout+status and stderr with the default-named program's.
+func c10Replay() string {
+	return `set -e
+T=$(mktemp -d); trap 'rm -rf "$T"' EXIT
+(cd /repo && GOFLAGS=-mod=mod GOPROXY=off GOSUMDB=off GOTOOLCHAIN=local go build -o "$T/tsh" . ) && cp -r /repo/std "$T/std"
+mkdir -p "$T/out" "$T/box"
+cp -r src "$T/srcdir"
+"$T/tsh" -i "$T/srcdir/main.tsh" -o "$T/out" -t bash || { echo "REPLAY: transpilation failed (see above): the property holds for this renaming"; exit 0; }
+[ -d box ] && cp -r box/. "$T/box/"
+cp stdin.txt "$T/stdin.txt"
+( cd "$T/box" && env -i /bin/bash "$T/out/main.sh" < "$T/stdin.txt" > "$T/actual.txt" 2> "$T/stderr.raw"; echo "exit=$?" >> "$T/actual.txt" ) || true
+sed -E 's#^/[^ ]*/main\.sh: #script.sh: #' "$T/stderr.raw" > "$T/stderr.txt"
+if diff expected.txt "$T/actual.txt" && diff expected_stderr.txt "$T/stderr.txt"; then echo "REPLAY: no longer reproduces"; exit 0; else echo "REPLAY: reproduced (diff above: default-named program's observation vs. the renamed program's)"; exit 1; fi`
 }
